@@ -18,7 +18,7 @@ fn main() {
     // (name, text, n_sources)
     let progs: Vec<(String, String, usize)> = match fam {
         "c24" => family::family_c24().iter().map(|g| (g.name.clone(), g.dfir_text(), g.n_sources)).collect(),
-        "c25" => family::family_c25().iter().map(|p| (p.name.clone(), p.dfir_text(), p.n_sources())).collect(),
+        "c25" => family::family_c25_all().iter().map(|p| (p.name(), p.dfir_text(), p.n_sources())).collect(),
         "c26" => family::family_c26().iter().map(|g| (g.name.clone(), g.dfir_text(), g.n_sources)).collect(),
         _ => panic!("unknown family {fam}"),
     };
